@@ -1365,3 +1365,76 @@ func c16r10(rc *core.RC) {
 		rc.Unknown("decoder/uintDecoder-methods", token.NoPos, "found %d methods of uintDecoder (confirmed: 7)", n)
 	}
 }
+
+// ---- C16.R11 the number that is written is the number that was tested ----
+
+// The omitempty variants of the integer member operations read the member to decide whether it is empty
+// (ptrToUint64(addr, …)) and, when it is not, hand an address to appendInt / appendUint, which read the number again
+// from there. Both have to be the member's address: written from p where it was tested at p+uintptr(code.Offset),
+// the text is whatever lies at the start of the struct (a member that is not the first in memory, behind an unexported
+// or ignored field, comes out as another field's bytes). Obligation, in every clause of the four interpreters that
+// holds both: the address handed to appendInt / appendUint is spelled as one of the addresses ptrToUint64 read in
+// that clause.
+func c16r11(rc *core.RC) {
+	p := rc.P
+	t := loadOpTable(rc)
+	if t == nil {
+		return
+	}
+	n := 0
+	for _, vm := range core.VMPkgs {
+		cl, _ := opClauses(rc, vm, t)
+		if cl == nil {
+			continue
+		}
+		info := p.Pkg(vm).TypesInfo
+		var labels []string
+		for k := range cl {
+			labels = append(labels, k)
+		}
+		sort.Strings(labels)
+		for _, label := range labels {
+			cc := cl[label]
+			tested := map[string]bool{}
+			type wr struct {
+				call *ast.CallExpr
+				addr string
+			}
+			var writes []wr
+			ast.Inspect(cc, func(m ast.Node) bool {
+				call, ok := m.(*ast.CallExpr)
+				if !ok {
+					return true
+				}
+				cn := core.CalleeName(info, call)
+				switch {
+				case strings.HasSuffix(cn, ".ptrToUint64") && len(call.Args) >= 1:
+					tested[types.ExprString(core.Unparen(call.Args[0]))] = true
+				case (strings.HasSuffix(cn, ".appendInt") || strings.HasSuffix(cn, ".appendUint")) && len(call.Args) == 4:
+					writes = append(writes, wr{call, types.ExprString(core.Unparen(call.Args[2]))})
+				}
+				return true
+			})
+			if len(tested) == 0 || len(writes) == 0 {
+				continue
+			}
+			for i, w := range writes {
+				n++
+				key := fmt.Sprintf("%s.Run/case %s/number-write#%d from-the-address-that-was-tested", vm, label, i+1)
+				if tested[w.addr] {
+					rc.OK(key, w.call.Pos(), "written from %s, where it was tested", w.addr)
+				} else {
+					var ts []string
+					for k := range tested {
+						ts = append(ts, k)
+					}
+					sort.Strings(ts)
+					rc.Bad(key, w.call.Pos(), "the member is tested for emptiness at %s and written from %s: for a member that does not lie at the start of its struct the number that comes out is another field's bytes", strings.Join(ts, ", "), w.addr)
+				}
+			}
+		}
+	}
+	if n < 20 {
+		rc.Unknown("encoder-vms/tested-and-written-numbers", token.NoPos, "found %d number writes in clauses that also test the number, fewer than the 20 confirmed by hand", n)
+	}
+}
